@@ -73,6 +73,8 @@ def run(ctx):
     from pv.ref import bridge, gates as G, sv
 
     warnings.filterwarnings("ignore")
+    from pv.ref.c53_limit import limit_repeats
+    limit_repeats(ctx)
     PAULI = {"I": np.eye(2, dtype=complex), "X": G.X, "Y": G.Y, "Z": G.Z}
 
     def rule_name(rule):
